@@ -252,9 +252,127 @@ pub proof fn lemma_stamped_unread(ino: Inode, t: int, gran: int)
     u.text('}\n')
 
 
+def weave_cache_dir_head(u):
+    """validate_file_name, ensure_directory and the CacheDir trait's lookups."""
+    u.text('pub mod cache_dir {\n' + MOD_HEAD + 'use crate::benign_error::is_absent_file_error;\nuse crate::raw_cache;\n'
+           'use crate::trigger::PeriodicTrigger;\nuse crate::std::fs::File;\n')
+    INV = ('C02 C18:valid-on-every-exit', 'final(w).inv()')
+    BOOK = ('', 'final(w).kept(*old(w))')
+
+    f = u.under_contract(u.item('src/cache_dir.rs', ['fn validate_file_name']), ['C16'])
+    f.air = 'cache_dir::validate_file_name'
+    f.replace('Error :: new', 'io_error_new', 'T2-rebind')
+    f.contract(ensures=[
+        ('C16:reserved-or-empty-names-are-rejected-with-invalid-input',
+         '!first_byte_ok(str_bytes(name)) ==> r.is_err() && err_kind(r.unwrap_err()) == ErrorKind::InvalidInput'),
+        ('C16:accepted-names-are-single-components-outside-the-dot-namespace',
+         'r.is_ok() ==> r.unwrap() == name && valid_key(str_bytes(name))'),
+        ('C16:only-invalid-input-is-ever-reported', 'r.is_err() ==> err_kind(r.unwrap_err()) == ErrorKind::InvalidInput'),
+        ('C05 C18 C16:only-invalid-names-are-rejected', 'r.is_err() ==> !first_byte_ok(str_bytes(name)) || str_bytes(name).contains(0x2fu8)'),
+    ])
+    f.body_start('proof { if first_byte_ok(str_bytes(name)) && !str_bytes(name).contains(0x2fu8) { lemma_valid_key(str_bytes(name)); } }')
+
+    f = u.under_contract(u.item('src/cache_dir.rs', ['fn ensure_directory']), ['C02', 'C15', 'C16', 'C18', 'C06'])
+    f.air = 'cache_dir::ensure_directory'
+    f.add_param(W)
+    f.add_arg('std :: fs :: metadata', TW)
+    f.add_arg('std :: fs :: create_dir_all', TW)
+    f.contract(
+        requires=[('', 'old(w).inv()'), ('C02 C15 C16:only-cache-directories-are-created', 'old(w).may_mkdir(pv(path))')],
+        ensures=[INV, BOOK,
+                 ('C06 C20:at-most-two-filesystem-calls', 'final(w).steps <= old(w).steps + 2 && final(w).opens == old(w).opens && final(w).published == old(w).published'),
+                 ('C02:directory-exists-afterwards', 'r.is_ok() ==> final(w).dirs.contains(pv(path))'),
+                 ('C02 C15:only-directories-on-the-way-are-created',
+                  'final(w).files == old(w).files && final(w).inodes == old(w).inodes '
+                  '&& (forall|d: PathV| #[trigger] old(w).dirs.contains(d) ==> final(w).dirs.contains(d)) '
+                  '&& (forall|d: PathV| #[trigger] final(w).dirs.contains(d) ==> old(w).dirs.contains(d) || d.is_prefix_of(pv(path)))'),
+                 ('C18:error-is-a-real-fault', 'r.is_err() ==> final(w).hard_faults > old(w).hard_faults')])
+
+    # ---- trait CacheDir ----------------------------------------------------------------------
+    t = u.item('src/cache_dir.rs', ['trait CacheDir'])
+    KEEP = {'temp_dir', 'base_dir', 'trigger', 'capacity', 'get', 'touch'}
+    dropped = t.drop_members_except(KEEP)
+    if dropped:
+        u.dropped.append('cache_dir.rs: CacheDir members not (yet) under contract: ' + ', '.join(dropped))
+    decl = {}
+    for name, ret, spec in (('temp_dir', 'PathV', 'cowv(r) == self.spec_temp()'),
+                            ('base_dir', 'PathV', 'cowv(r) == self.spec_base()'),
+                            ('trigger', 'PeriodicTrigger', '*r == self.spec_trigger()'),
+                            ('capacity', 'usize', 'r == self.spec_capacity()')):
+        d = t.sub(['fn ' + name])
+        d.insert_before_tok(d.fn_kw(), 'spec fn spec_%s(&self) -> %s;\n    ' % (name.replace('_dir', ''), ret))
+        d.contract(ensures=[('', spec)])
+        decl[name] = d
+    decl['temp_dir'].insert_before_tok(decl['temp_dir'].fn_kw(),
+        '/// Configuration well-formedness of a cache directory handle: the temp dir is `<base>/.kismet_temp`.\n'
+        '    open spec fn wf(&self) -> bool { self.spec_temp() == child(self.spec_base(), temp_name()) }\n\n'
+        '    /// The operation runs on a configured read-write cache directory.\n'
+        '    open spec fn rw(&self, w: World) -> bool { self.wf() && w.cache_dirs.contains(self.spec_base()) && !w.under_ro(self.spec_base()) '
+        '&& !w.under_ro(self.spec_temp()) && forall|n: Seq<u8>| !w.under_ro(#[trigger] child(self.spec_base(), n)) }\n\n    ')
+
+    # get
+    g = u.under_contract(t.sub(['fn get']), ['C01', 'C04', 'C05', 'C06', 'C09', 'C11', 'C13', 'C15', 'C16', 'C18', 'C19', 'C20'])
+    g.air = r'cache_dir::CacheDir::get'
+    g.add_param(W)
+    g.add_arg('File :: open', TW)
+    g.add_arg('raw_cache :: ensure_file_touched', TW)
+    TARGET = 'child(self.spec_base(), str_bytes(name))'
+    g.contract(
+        requires=[('', 'old(w).inv()')],
+        ensures=[
+            INV, BOOK,
+            ('C16:invalid-names-fail-with-invalid-input-and-touch-nothing',
+             '!first_byte_ok(str_bytes(name)) ==> r.is_err() && err_kind(r.unwrap_err()) == ErrorKind::InvalidInput && *final(w) == *old(w)'),
+            ('C06 C20:at-most-three-calls-one-open', 'final(w).steps <= old(w).steps + 3 && final(w).opens <= old(w).opens + 1 && final(w).published == old(w).published'),
+            ('C15 C09:lookup-changes-nothing-but-the-access-time-of-the-entry-found',
+             'final(w).files == old(w).files && final(w).dirs == old(w).dirs && forall|i: InodeId| old(w).inodes.contains_key(i) ==> '
+             '#[trigger] final(w).inodes[i] == (Inode { atime: final(w).inodes[i].atime, ..old(w).inodes[i] }) '
+             '&& (final(w).inodes[i].atime != old(w).inodes[i].atime ==> old(w).files.contains_key(%s) && i == old(w).files[%s])' % (TARGET, TARGET)),
+            ('C01 C04 C11 C16 C19:hit-is-a-read-only-handle-on-the-file-bound-to-exactly-that-key',
+             'r.is_ok() && r.unwrap().is_some() ==> old(w).files.contains_key(%s) && r.unwrap().unwrap().ino() == old(w).files[%s] '
+             '&& !r.unwrap().unwrap().can_write()' % (TARGET, TARGET)),
+            ('C09:hit-marks-the-entry-as-read-whatever-the-atime-policy',
+             'r.is_ok() && r.unwrap().is_some() && final(w).hard_faults == old(w).hard_faults ==> final(w).accessed(%s)' % TARGET),
+            ('C05 C04 C11:miss-means-absent',
+             'r.is_ok() && r.unwrap().is_none() ==> !old(w).files.contains_key(%s) && final(w).same_fs(*old(w))' % TARGET),
+            ('C04 C11:present-entry-is-found',
+             'r.is_ok() && old(w).files.contains_key(%s) ==> r.unwrap().is_some()' % TARGET),
+            ('C18 C05:error-is-an-invalid-name-or-a-real-fault',
+             'r.is_err() ==> !first_byte_ok(str_bytes(name)) || str_bytes(name).contains(0x2fu8) || final(w).hard_faults > old(w).hard_faults'),
+        ])
+    g.body_start('broadcast use group_asref;')
+
+    # touch
+    th = u.under_contract(t.sub(['fn touch']), ['C04', 'C05', 'C06', 'C09', 'C13', 'C15', 'C16', 'C18', 'C20'])
+    th.air = r'cache_dir::CacheDir::touch'
+    th.add_param(W)
+    th.replace('raw_cache :: touch (', 'raw_cache::touch::run(', 'T2-shim-bypass')
+    th.add_arg('raw_cache :: touch', TW)
+    th.contract(
+        requires=[('', 'old(w).inv()')],
+        ensures=[
+            INV, BOOK,
+            ('C16:invalid-names-fail-with-invalid-input-and-touch-nothing',
+             '!first_byte_ok(str_bytes(name)) ==> r.is_err() && err_kind(r.unwrap_err()) == ErrorKind::InvalidInput && *final(w) == *old(w)'),
+            ('C06 C20:one-filesystem-call', 'final(w).steps <= old(w).steps + 1 && final(w).opens == old(w).opens && final(w).published == old(w).published'),
+            ('C09 C15 C16:touch-marks-exactly-that-entry-without-reordering',
+             'r == Ok::<bool, Error>(true) ==> old(w).files.contains_key(%s) && final(w).accessed(%s) '
+             '&& final(w).only_inode_changed(*old(w), old(w).files[%s], Inode { atime: final(w).inode_at(%s).atime, ..old(w).inode_at(%s) })'
+             % (TARGET, TARGET, TARGET, TARGET, TARGET)),
+            ('C05 C04:absence-is-reported-as-false', 'r == Ok::<bool, Error>(false) ==> !old(w).files.contains_key(%s) && final(w).same_fs(*old(w))' % TARGET),
+            ('C18 C05:error-is-an-invalid-name-or-a-real-fault',
+             'r.is_err() ==> final(w).same_fs(*old(w)) && (!first_byte_ok(str_bytes(name)) || str_bytes(name).contains(0x2fu8) || final(w).hard_faults > old(w).hard_faults)'),
+        ])
+    th.body_start('broadcast use group_asref;')
+    u.text('}\n')
+
+
 def build(u):
     u.prelude('world.rs')
     u.prelude('vfs.rs')
+    u.prelude('trigger_env.rs')
+    _unit('u2_trigger').weave_trigger(u, props=['C10'])
     weave_benign(u)
     weave_raw_leaves(u)
+    weave_cache_dir_head(u)
     return u
